@@ -523,7 +523,7 @@ type linTerm struct {
 
 // linearize flattens t into a linear form (modulo 2^w).
 func (tb *TB) linearize(t *Term, coef uint64, out *[]linTerm, c *uint64) {
-	if coef != 1 && t.op != OpConst {
+	if coef != 1 && t.op != OpConst && !tb.linFlat {
 		// a sub-term with its own (path-refined) bound is kept whole: its bound is
 		// usually tighter than what its expansion gives
 		_, ru := tb.refU[t]
@@ -748,6 +748,17 @@ func (tb *TB) Bin(op Op, a, b *Term) *Term {
 				}
 				if a.op == OpMul && a.b.op == OpConst {
 					return tb.Bin(OpMul, a.a, K(w, a.b.val*b.val))
+				}
+				// distribute a constant factor over a sum: (x + y) * c → x*c + y*c
+				// (keeps decimal accumulations Σ d_i·10^k flat instead of nested multipliers)
+				if a.op == OpAdd && w >= 32 {
+					var ts []linTerm
+					var c uint64
+					tb.linearize(a, b.val, &ts, &c)
+					if len(ts) <= 32 && !(len(ts) == 1 && ts[0].t == a) {
+						tb.fire("distribute-mul")
+						return tb.buildLin(w, ts, c)
+					}
 				}
 			}
 		case OpUDiv, OpSDiv:
@@ -1191,6 +1202,27 @@ func (tb *TB) Cmp(op Op, a, b *Term) *Term {
 			}
 			if ia.slo > ib.shi {
 				return FalseT
+			}
+		}
+		// overflow tests: (y + z) < y  /  y <= (y + z)  when the sum provably does not wrap
+		if op == OpULt && a.op == OpAdd && (a.a == b || a.b == b) {
+			other := a.a
+			if a.a == b {
+				other = a.b
+			}
+			if io := tb.IV(other); ib.uhi <= mask(a.w)-io.uhi {
+				tb.fire("no-overflow-test")
+				return FalseT
+			}
+		}
+		if op == OpULe && b.op == OpAdd && (b.a == a || b.b == a) {
+			other := b.a
+			if b.a == a {
+				other = b.b
+			}
+			if io := tb.IV(other); ia.uhi <= mask(a.w)-io.uhi {
+				tb.fire("no-overflow-test")
+				return TrueT
 			}
 		}
 		// signed → unsigned when both non-negative
